@@ -143,6 +143,12 @@ func (db *DB) Merge() error {
 	if err := hintFile.Close(); err != nil {
 		return err
 	}
+	// 重写过程中被轮换的数据文件同样需要关闭, 否则 mmap 文件不会被截断回真实大小
+	for _, file := range mergeDB.olderFiles {
+		if err := file.Close(); err != nil {
+			return err
+		}
+	}
 	if mergeDB.activeFile != nil {
 		if err := mergeDB.activeFile.Close(); err != nil {
 			return err
